@@ -169,6 +169,40 @@ def call_passes_param(qualname, method, arg_index, param, min_calls=1, keyword=N
     return rec
 
 
+def stage_order(qualname, constructed_after):
+    """Stage-order obligation for a pipeline driver: every stage object is constructed only after the stage it depends on
+    has run — `constructed_after = {"BlueprintEmitter": "plan_layout", ...}` means the first call `BlueprintEmitter(...)`
+    in the function's top-level body comes after the statement calling `.plan_layout(...)` (constructors may snapshot
+    state that the earlier stage still completes, e.g. the signal map that layout fills in)."""
+    rec = {"name": f"{qualname.split('::')[-1]}: stage objects are constructed after the stage they depend on ({', '.join(f'{k} after .{v}()' for k, v in constructed_after.items())})",
+           "status": "undecided", "backend": "ast-control-dependence", "ms": 0.0}
+    try:
+        fs = source.get_function(qualname)
+    except Exception as e:
+        rec["detail"] = f"contract drift: {e}"
+        return rec
+    body = fs.node.body
+
+    def index_of(pred):
+        for i, stmt in enumerate(body):
+            for n in ast.walk(stmt):
+                if pred(n):
+                    return i
+        return None
+    for ctor, stage in constructed_after.items():
+        ic = index_of(lambda n: isinstance(n, ast.Call) and isinstance(n.func, ast.Name) and n.func.id == ctor)
+        ist = index_of(lambda n: isinstance(n, ast.Call) and isinstance(n.func, ast.Attribute) and n.func.attr == stage)
+        if ic is None or ist is None:
+            rec["detail"] = f"{ctor}(...) or .{stage}() not found at the top level (contract drift)"
+            return rec
+        if ic <= ist:
+            rec["status"] = "violated"
+            rec["detail"] = f"line {body[ic].lineno}: {ctor}(...) is constructed before .{stage}() has run (line {body[ist].lineno})"
+            return rec
+    rec["status"] = "proved"
+    return rec
+
+
 def stage_guards(qualname, stages, success_prefix="True"):
     """Abort-on-error obligation for a pipeline driver: in the top-level body of `qualname`, every statement that
     calls one of the `stages` methods is followed — before the next stage call and before any `return True, ...` —
